@@ -5,6 +5,15 @@ V = os.path.dirname(os.path.dirname(os.path.abspath(__file__)))
 PY = "PYTHONPATH=/repo PYTHONHASHSEED=0 /venv/bin/python"
 
 CHECKS = {
+ "C18": dict(
+   text="Five theorems over the layered ray model (any number of layers, interfaces, velocities, offsets, ray parameters): sin/velocity equals the ray parameter in "
+        "every segment; every segment goes down and towards (never beyond) the receiver line; travel time = sum len/velocity and length = sum len; in a homogeneous "
+        "medium a ray that reaches the receiver line has exactly the straight-line time to its end point, and sqrt(X^2+z^2) is 1-Lipschitz in z (tolerance bound). "
+        "Tie: _tracerays (trace_layers on/off) co-executed with the binary64 instance (sqrt form, 2^-30 relative), the statement re-evaluated on the returned ray "
+        "coordinates, forward()/solved_angles on homogeneous media on the installed NumPy.",
+   note="Trusted: Coq kernel, stdlib real axioms; harness; sin(arcsin x)=x and cos(arcsin x)=sqrt(1-x^2) connect the code's angle form to the model's; the random "
+        "angle refinement of _search_angles is exercised, not modelled.",
+   technique="Coq proof (induction over layers, real analysis) + tolerance co-execution", ref="5/C18"),
  "C03": dict(
    text="Ten theorems: Diagonal/Unit kinetic energy value, gradient = derivative (Coquelicot) and factor^2 = matrix for every dimension; Full: P p is the "
         "derivative of 1/2 p^T P p for symmetric P; BFGS history machine: for EVERY history of updates/accepts/rejects the momentum factor belongs to the metric in "
